@@ -769,6 +769,21 @@ func (e *Engine) checkInvariants(st *State, lc *LoopContract, kind string, pos t
 	}
 }
 
+// checkSteps proves the per-iteration postconditions (old() = head of this iteration).
+func (e *Engine) checkSteps(st *State, iterStart *State, lc *LoopContract, pos token.Pos) {
+	if lc == nil || len(lc.steps) == 0 {
+		return
+	}
+	save := e.oldState
+	e.oldState = iterStart
+	defer func() { e.oldState = save }()
+	for _, s := range lc.steps {
+		g := e.evalClause(st, s, nil)
+		tmp := st.clone()
+		e.oblige(tmp, "step", s.text, g, pos, s)
+	}
+}
+
 func (e *Engine) assumeInvariants(st *State, lc *LoopContract) {
 	if lc == nil {
 		return
@@ -813,9 +828,11 @@ func (e *Engine) execFor(st *State, n *ast.ForStmt, cx *Ctx) *State {
 		exit = nil
 	}
 	inner := &Ctx{fnContract: cx.fnContract, loopOrd: cx.loopOrd, closureOrd: cx.closureOrd, results: cx.results, defers: cx.defers}
+	iterStart := body.clone()
 	out := e.execBlock(body, n.Body.List, inner)
 	back := e.merge(append([]*State{out}, inner.continues...))
 	if back != nil {
+		e.checkSteps(back, iterStart, lc, n.Pos())
 		if n.Post != nil {
 			back = e.execStmt(back, n.Post, inner)
 		}
@@ -956,9 +973,11 @@ func (e *Engine) execRange(st *State, n *ast.RangeStmt, cx *Ctx) *State {
 			body.vars[valObj] = e.loadElemCopy(body, blk, Add(off, i), elem)
 		}
 		inner := &Ctx{fnContract: cx.fnContract, loopOrd: cx.loopOrd, closureOrd: cx.closureOrd, results: cx.results, defers: cx.defers}
+		iterStart := body.clone()
 		out := e.execBlock(body, n.Body.List, inner)
 		back := e.merge(append([]*State{out}, inner.continues...))
 		if back != nil {
+			e.checkSteps(back, iterStart, lc, n.Pos())
 			back.vars[idxObj] = IntV{Add(i, I(1))}
 			bindHead(back)
 			e.checkInvariants(back, lc, "inv-pres", n.Pos())
